@@ -36,7 +36,9 @@ static void vp_body(struct vp_in* pin, size_t n, size_t a, size_t b, size_t iv_l
 	START(st2);
 	STEP(buf2, n, st2);
 	VP_WITNESS();
+#ifndef NOEQ
 	VP_ASSERT(vp_eq(buf1, buf2, MAXN), "fragment-wise generation (with state relocation) == single request");
+#endif   /* NOEQ: cipher = arbitrary function; only the memory checks matter (a relocated state must not refer to its old location) */
 #undef in
 }
 void harness(void) { VP_INPUT(); vp_body(&in, in.n, in.a, in.b, in.iv_len); }
